@@ -35,6 +35,9 @@ CHECKS = {
 
  'C15': ('Q2 term identities between the rebuilt problem and fresh problems (pinned bounds on exactly the window variables, everything else unchanged), Q1 consequences (x_prev feasible, window pinned)', '6 C15',
          'For masks and dates (on and between grid points) and portfolios with several mapping rows per variable (transport, multi-commodity, CHP fuel, coarse, order book, periodic): for ALL previous solutions x_prev, parameter values and new prices the rebuilt problem is the fresh problem with exactly the window variables pinned to x_prev.'),
+
+ 'C16': ('Q3 two-way embeddings: scaled asset (fixed scale, and free scale with the scale as symbolic LP variable) vs base asset with scaled quantities; structured vs flat portfolio; Q1 external dispatch', '6 C16',
+         'Scaled storage/transport/contract/take contract: same feasible dispatch and value = base value - fix_costs*s*(active duration of the scaled asset) for all base parameters and prices; free scale: for every sigma in [min,max] the free problem restricted to sigma is the base problem scaled by sigma/S; structured vs flat: same feasible set, value and external dispatch.'),
 }
 NA = {}
 props = [json.loads(l) for l in open(os.path.join(ROOT, 'properties.jsonl'))]
